@@ -175,14 +175,14 @@ class Runner:
                     runner.stack.pop()
             self.cbs[cbid] = cb
         if w.get('kw'):
-            wo = self.obj.param.watch_values(self.cbs[cbid], [self.names[i] for i in w['params']],
+            wo = self.obj.param.watch_values(self.cbs[cbid], [self._name(i) for i in w['params']],
                                                           onlychanged=w['onlychanged'], queued=w['queued'],
                                                           precedence=w['precedence'])
         else:
             # a negative precedence is what the library's own watchers have (depends(), references): the public
             # `watch` refuses it, the internal `_watch` is what those callers use
             reg = self.obj.param._watch if w['precedence'] < 0 else self.obj.param.watch
-            wo = reg(self.cbs[cbid], [self.names[i] for i in w['params']],
+            wo = reg(self.cbs[cbid], [self._name(i) for i in w['params']],
                      what=SLOTS[w.get('what', 0)],
                      onlychanged=w['onlychanged'], queued=w['queued'],
                      precedence=w['precedence'])
@@ -279,8 +279,7 @@ class Runner:
             node = self._node('watch', s['w']['id'])
 
             def go():
-                if not all(i < len(self.names) for i in s['w']['params']):
-                    raise ValueError('no such parameter')
+                # unknown names are handed to the library: it must refuse them and register nothing
                 self._watch(s['w'])
             self._in(node, go)
         elif k == 'unwatch':
@@ -476,7 +475,13 @@ def gen_case(rng, prop, max_params=4, max_watchers=5, faults=False, size=8):
                 w = mk_watcher(nb)
                 state['made'].append(w)
                 return {'s': 'watch', 'w': w}
-            return {'s': 'watch', 'w': mk_for_body()}
+            w = mk_for_body()
+            if faults and rng.random() < 0.15 and w['id'] not in state['shared']:
+                # an unknown name among the parameters: the registration must fail as a whole
+                state['made'] = [x for x in state['made'] if x is not w]      # never the model of a twin
+                w['params'] = list(w['params'])
+                w['params'].insert(rng.randrange(len(w['params']) + 1), n)
+            return {'s': 'watch', 'w': w}
         if k == 'unwatch':
             # registrations that share a callback are equal as namedtuples: `unwatch` removes the first
             # equal one, which the id-based model does not track - never unwatch those
